@@ -12,9 +12,71 @@ struct Sched {
     cv: Condvar,
 }
 
+/// `wrapper <Date|Time|NaiveDateTime|DateTime> key=value ...`: builds the Elixir struct map with those integer
+/// fields (microsecond_0/_1 form the {value, precision} tuple), calls the wrapper's from_term and exits 101
+/// when it returns a value whose fields differ from the term's (an out-of-range field was fabricated).
+fn wrapper(a: &[String]) -> ! {
+    use erltf::{Atom, OwnedTerm};
+    use std::collections::BTreeMap;
+    let ty = a[2].as_str();
+    let mut kv: BTreeMap<String, i64> = BTreeMap::new();
+    for s in &a[3..] {
+        if let Some((k, v)) = s.split_once('=') {
+            kv.insert(k.to_string(), v.parse().unwrap());
+        }
+    }
+    let mut m = BTreeMap::new();
+    m.insert(OwnedTerm::Atom(Atom::new("__struct__")), OwnedTerm::Atom(Atom::new(format!("Elixir.{}", ty))));
+    m.insert(OwnedTerm::Atom(Atom::new("calendar")), OwnedTerm::Atom(Atom::new("Elixir.Calendar.ISO")));
+    for (k, v) in &kv {
+        if k.starts_with("microsecond_") {
+            continue;
+        }
+        m.insert(OwnedTerm::Atom(Atom::new(k)), OwnedTerm::Integer(*v));
+    }
+    if let (Some(v), Some(p)) = (kv.get("microsecond_0"), kv.get("microsecond_1")) {
+        m.insert(OwnedTerm::Atom(Atom::new("microsecond")), OwnedTerm::Tuple(vec![OwnedTerm::Integer(*v), OwnedTerm::Integer(*p)]));
+    }
+    if ty == "DateTime" {
+        m.insert(OwnedTerm::Atom(Atom::new("time_zone")), OwnedTerm::Binary(b"Etc/UTC".to_vec()));
+        m.insert(OwnedTerm::Atom(Atom::new("zone_abbr")), OwnedTerm::Binary(b"UTC".to_vec()));
+    }
+    let t = OwnedTerm::Map(m);
+    let g = |k: &str| kv.get(k).copied();
+    let mut got: Vec<(&str, i64)> = Vec::new();
+    let some = match ty {
+        "Date" => edp_elixir_terms::ElixirDate::from_term(&t).map(|d| { got = vec![("year", d.year as i64), ("month", d.month as i64), ("day", d.day as i64)]; }).is_some(),
+        "Time" => edp_elixir_terms::ElixirTime::from_term(&t).map(|d| { got = vec![("hour", d.hour as i64), ("minute", d.minute as i64), ("second", d.second as i64),
+            ("microsecond_0", d.microsecond_value as i64), ("microsecond_1", d.microsecond_precision as i64)]; }).is_some(),
+        "NaiveDateTime" => edp_elixir_terms::ElixirNaiveDateTime::from_term(&t).map(|d| { got = vec![("year", d.year as i64), ("month", d.month as i64), ("day", d.day as i64),
+            ("hour", d.hour as i64), ("minute", d.minute as i64), ("second", d.second as i64), ("microsecond_0", d.microsecond_value as i64), ("microsecond_1", d.microsecond_precision as i64)]; }).is_some(),
+        "DateTime" => edp_elixir_terms::ElixirDateTime::from_term(&t).map(|d| { got = vec![("year", d.year as i64), ("month", d.month as i64), ("day", d.day as i64),
+            ("hour", d.hour as i64), ("minute", d.minute as i64), ("second", d.second as i64), ("microsecond_0", d.microsecond_value as i64), ("microsecond_1", d.microsecond_precision as i64),
+            ("utc_offset", d.utc_offset as i64), ("std_offset", d.std_offset as i64)]; }).is_some(),
+        _ => { eprintln!("unknown wrapper"); std::process::exit(64) }
+    };
+    if !some {
+        println!("REPLAY: from_term returned None (term rejected)");
+        std::process::exit(0);
+    }
+    for (k, v) in &got {
+        if let Some(want) = g(k) {
+            if want != *v {
+                eprintln!("REPLAY: field {} of the term is {} but from_term fabricated {}", k, want, v);
+                std::process::exit(101);
+            }
+        }
+    }
+    println!("REPLAY: from_term returned the term's own field values");
+    std::process::exit(0)
+}
+
 fn main() {
     let a: Vec<String> = std::env::args().collect();
     let kind = a[1].as_str();
+    if kind == "wrapper" {
+        wrapper(&a);
+    }
     let t: usize = a[2].parse().unwrap();
     let k: usize = a[3].parse().unwrap();
     let next_id: u32 = a[4].parse().unwrap();
